@@ -25,7 +25,7 @@ ASSUMPTIONS = ["streams always end in a quit trailer that is reachable from ever
 
 TAGS = "foo\tf\t/foo/\nfoo\tg\t1\nmain\th.c\t/^int main/\nbar\tnofile\t1\nabc\tf\t3\n"
 EX_PREFIX = "rs a\nfoo\n.\nrs b\n1p\n.\nrs c\ns/a/b/\n.\nrs x\nbar\nbaz\n.\nrs \\a\n$d\n.\nrs \\x\nec hi\n.\n"
-VI_PREFIX = ":rs a\nx\n.\n:rs b\ndw\n.\n:rs x\nibar" + gen.ESC + "\n.\n:rs \\a\n$d\n.\n"
+VI_PREFIX = ":rs a\nx\n.\n:rs b\ndw\n.\n:rs x\nibar" + gen.ESC + "\n.\n:rs \\a\n$d\n.\n:rs \\x\nec hi\n.\n"
 
 
 def prepare(build, tier):
